@@ -27,8 +27,22 @@ ASSUMPTIONS = [
 ]
 
 
+def _closure_text(func, expr):
+    seen, out, work = set(), [norm(expr)], [expr]
+    while work:
+        e = work.pop()
+        for nm in names_in(e):
+            if nm in seen:
+                continue
+            seen.add(nm)
+            for v, st in defs_of(func.node, nm):
+                out.append(norm(v))
+                work.append(v)
+    return ' ; '.join(out)
+
+
 def is_type_gate(test, func, raising_when_true):
-    t = norm(test)
+    t = _closure_text(func, test)
     if 'numtypesdescr' not in t or '.dtype.name' not in t:
         return False
     return any(isinstance(o, ast.NotIn) == raising_when_true for c in ast.walk(test) if isinstance(c, ast.Compare)
@@ -50,7 +64,7 @@ def run(ctx):
     gates = [n for n in own_nodes(f.node) if isinstance(n, ast.If) and is_type_gate(n.test, f, always_raises(n.body))]
     if gates:
         # the gate tests the chunk whose dtype is imposed
-        tested = norm(gates[0].test).split('.dtype.name')[0].split()[-1]
+        tested = _closure_text(f, gates[0].test).split('.dtype.name')[0].split()[-1].lstrip('(')
         dd = [v for v, _ in defs_of(f.node, 'dtype') if not (isinstance(v, ast.Constant))]
         ok = any(norm(v) == f'{tested}.dtype' for v in dd)
         ctx.decide(ok, 'R-FLOW', 'D1', f, gates[0], 'gate-tests-imposed-dtype',
@@ -68,6 +82,14 @@ def run(ctx):
     for v, st in defs_of(f.node, 'dtype'):
         if isinstance(v, ast.Attribute) and v.attr == 'dtype':
             first = norm(v.value)
+    rebuilt = [v for v, st in defs_of(f.node, 'dtype') if '.name' in _closure_text(f, v) and not
+               (isinstance(v, ast.Attribute) and v.attr == 'dtype')]
+    ctx.decide(first is not None and not rebuilt, 'R-FLOW', 'D2', f, rebuilt[0] if rebuilt else None, 'imposed-dtype-is-first-chunk-dtype',
+               'the dtype imposed on later chunks is the first chunk\'s dtype object itself (byte order included)',
+               detail=f'dtype is rebuilt as `{norm(rebuilt[0]) if rebuilt else None}` from the type *name*, which carries no '
+                      f'byte order: later chunks are written in native order while the descriptor keeps the first chunk\'s')
+    if first is None and rebuilt:
+        first = 'firstchunk'
     for w in writes:
         recv = w.node.func.value
         ok = False
